@@ -22,6 +22,7 @@ import (
 )
 
 //vsym:stub github.com/notaryproject/notation-core-go/signature.ParseEnvelope = kitParseEnvelope
+//vsym:stub github.com/notaryproject/notation-core-go/revocation.NewWithOptions = kitNewDefaultValidator
 
 const (
 	kitJWS  = "application/jose+json"
@@ -147,6 +148,23 @@ func (v *kitValidator) ValidateContext(ctx context.Context, opts revocation.Vali
 		return nil, errors.New("validator error")
 	}
 	return v.results, nil
+}
+
+// kitDefaultValidators: the validators the verifier builds for itself when the caller supplies none
+// (core-go's OCSP / CRL client under the engine: answers "OK" and counts its consultations)
+var kitDefaultValidators []*kitValidator
+
+func kitNewDefaultValidator(opts revocation.Options) (revocation.Validator, error) {
+	v := &kitValidator{}
+	kitDefaultValidators = append(kitDefaultValidators, v)
+	return kitDefault{v}, nil
+}
+
+type kitDefault struct{ v *kitValidator }
+
+func (d kitDefault) ValidateContext(ctx context.Context, opts revocation.ValidateContextOptions) ([]*revocationresult.CertRevocationResult, error) {
+	d.v.calls++
+	return kitOKResults(len(opts.CertChain)), nil
 }
 
 // kitClient is the deprecated revocation.Revocation interface
